@@ -105,4 +105,7 @@ def translated : List String := ["Modified(target)", "Modify(origin,target)", "U
 /-- every rejecting guard of the translated functions, in source order -/
 def guards : List String := ["UpdateNFT: denom, err := k.GetDenomInfo(ctx, denomID); err != nil", "UpdateNFT: denom.UpdateRestricted", "UpdateNFT: err := k.Authorize(ctx, denomID, tokenID, owner); err != nil", "UpdateNFT: !exist", "UpdateNFT: nftMetadata, err := types.UnmarshalNFTMetadata(k.cdc, token.Data.GetValue()); err != nil", "UpdateNFT: data, err := codectypes.NewAnyWithValue(&nftMetadata); err != nil", "TransferOwnership: !exist", "TransferOwnership: err := k.Authorize(ctx, denomID, tokenID, srcOwner); err != nil", "TransferOwnership: denom, err := k.GetDenomInfo(ctx, denomID); err != nil", "TransferOwnership: denom.UpdateRestricted && (tokenChanged || tokenMetadataChanged)", "TransferOwnership: !tokenChanged && !tokenMetadataChanged", "TransferOwnership: nftMetadata, err := types.UnmarshalNFTMetadata(k.cdc, token.Data.GetValue()); err != nil", "TransferOwnership: data, err := codectypes.NewAnyWithValue(&nftMetadata); err != nil", "TransferOwnership: err := k.nk.Update(ctx, token); err != nil", "MintNFT: recipient, err := sdk.AccAddressFromBech32(msg.Recipient); err != nil", "MintNFT: sender, err := sdk.AccAddressFromBech32(msg.Sender); err != nil", "MintNFT: denom, err := k.GetDenomInfo(ctx, msg.DenomId); err != nil", "MintNFT: denom.MintRestricted && denom.Creator != sender.String()", "MintNFT: err := k.SaveNFT(ctx, msg.DenomId, msg.Id, msg.Name, msg.URI, msg.UriHash, msg.Data, recipient, ); err != nil", "TransferDenomOwner: denom, err := k.GetDenomInfo(ctx, denomID); err != nil", "TransferDenomOwner: srcOwner.String() != denom.Creator", "TransferDenomOwner: data, err := codectypes.NewAnyWithValue(denomMetadata); err != nil", "Authorize: !owner.Equals(k.nk.GetOwner(ctx, denomID, tokenID))", "Keeper.IssueDenom: sender, err := sdk.AccAddressFromBech32(msg.Sender); err != nil", "Keeper.IssueDenom: err := k.SaveDenom(ctx, msg.Id, msg.Name, msg.Schema, msg.Symbol, sender, msg.MintRestricted, msg.UpdateRestricted, msg.Description, msg.Uri, msg.UriHash, msg.Data, ); err != nil", "Keeper.EditNFT: sender, err := sdk.AccAddressFromBech32(msg.Sender); err != nil", "Keeper.EditNFT: err := k.UpdateNFT(ctx, msg.DenomId, msg.Id, msg.Name, msg.URI, msg.UriHash, msg.Data, sender, ); err != nil", "Keeper.TransferNFT: sender, err := sdk.AccAddressFromBech32(msg.Sender); err != nil", "Keeper.TransferNFT: recipient, err := sdk.AccAddressFromBech32(msg.Recipient); err != nil", "Keeper.TransferNFT: err := k.TransferOwnership(ctx, msg.DenomId, msg.Id, msg.Name, msg.URI, msg.UriHash, msg.Data, sender, recipient, ); err != nil", "Keeper.BurnNFT: sender, err := sdk.AccAddressFromBech32(msg.Sender); err != nil", "Keeper.BurnNFT: err := k.RemoveNFT(ctx, msg.DenomId, msg.Id, sender); err != nil", "Keeper.TransferDenom: sender, err := sdk.AccAddressFromBech32(msg.Sender); err != nil", "Keeper.TransferDenom: recipient, err := sdk.AccAddressFromBech32(msg.Recipient); err != nil", "Keeper.TransferDenom: err := k.TransferDenomOwner(ctx, msg.Id, sender, recipient); err != nil", "Keeper.RemoveNFT: err := k.Authorize(ctx, denomID, tokenID, owner); err != nil", "Keeper.SaveNFT: data, err := codectypes.NewAnyWithValue(nftMetadata); err != nil"]
 
+/-- every statement of the translated functions executed for its effect, with its nesting depth, in source order -/
+def effects : List String := ["UpdateNFT: d0 token.Uri = types.Modify(token.Uri, tokenURI)", "UpdateNFT: d0 token.UriHash = types.Modify(token.UriHash, tokenURIHash)", "UpdateNFT: d1 nftMetadata.Name = types.Modify(nftMetadata.Name, tokenNm)", "UpdateNFT: d1 nftMetadata.Data = types.Modify(nftMetadata.Data, tokenData)", "UpdateNFT: d1 token.Data = data", "TransferOwnership: d0 token.Uri = types.Modify(token.Uri, tokenURI)", "TransferOwnership: d0 token.UriHash = types.Modify(token.UriHash, tokenURIHash)", "TransferOwnership: d1 nftMetadata.Name = types.Modify(nftMetadata.Name, tokenNm)", "TransferOwnership: d1 nftMetadata.Data = types.Modify(nftMetadata.Data, tokenData)", "TransferOwnership: d1 token.Data = data"]
+
 end Irismod.Gen.PureNft
